@@ -215,11 +215,20 @@ impl<W: AliasableWeight> WeightedAliasIndex<W> {
 
         // The remaining indices should have no alias odds of about 100%. This is due to
         // numeric accuracy. Otherwise they would be exactly 100%.
+        //
+        // Such a column never needs its alias, but the uniform draw in `sample` can
+        // round up to `weight_sum` itself when `weight_sum` is subnormal, and the
+        // alias slot still holds a link of the work lists above (possibly the
+        // `u32::MAX` terminator). Point it at the column itself.
         while !aliases.smalls_is_empty() {
-            no_alias_odds[aliases.pop_small() as usize] = weight_sum;
+            let idx = aliases.pop_small();
+            no_alias_odds[idx as usize] = weight_sum;
+            aliases.set_alias(idx, idx);
         }
         while !aliases.bigs_is_empty() {
-            no_alias_odds[aliases.pop_big() as usize] = weight_sum;
+            let idx = aliases.pop_big();
+            no_alias_odds[idx as usize] = weight_sum;
+            aliases.set_alias(idx, idx);
         }
 
         // Prepare distributions for sampling. Creating them beforehand improves
